@@ -18,8 +18,11 @@ def check(ctx, rep):
     normr.norm_1_2(ctx, rep)
     normr.norm_3(ctx, rep)
     normr.norm_4_5(ctx, rep)
-    roots = [ctx.prog.func('parso/python/errors.py', 'ErrorFinder.visit'), ctx.prog.func('parso/normalizer.py', 'Normalizer.walk'),
-             ctx.prog.func('parso/python/errors.py', 'ErrorFinder.initialize'), ctx.prog.func('parso/python/errors.py', 'ErrorFinder.finalize')]
+    _ef = ctx.prog.cls('parso/python/errors.py', 'ErrorFinder')
+    roots = [_ef.lookup(m) for m in ('visit', 'walk', 'initialize', 'finalize')]     # own or inherited
+    if any(r is None for r in roots):
+        from ..model import AnalysisError
+        raise AnalysisError('anchor vanished: visit / walk / initialize / finalize of ErrorFinder')
     eff.eff_2(ctx, rep, roots, 'iter_errors')
     eff.eff_4(ctx, rep, roots)
     # no state outlives a call: no shared write reachable from the entry points of this property
@@ -27,5 +30,9 @@ def check(ctx, rep):
     _eff.eff_1(ctx, rep, only=[('parso/grammar.py', 'Grammar.iter_errors'), ('parso/grammar.py', 'Grammar._get_normalizer_issues')], minimum=20)
     from ..rules import normr as _n11
     _n11.norm_11(ctx, rep)      # prefix part columns: first-line state does not leak into later lines
+    from ..rules import cache as _exc3
+    _exc3.exc_3(ctx, rep)       # the codec probes of the string checks cannot raise out of the listing
+    from ..rules import normr as _n13
+    _n13.norm_13(ctx, rep)      # a prefix is split with a start position computed from its own leaf
     rep.note('Not decided: absence of every implicit exception (None dereferences that depend on tree invariants), '
              'position ranges. Dependency: RX-1 (C09) - two rules call _split_prefix.')
